@@ -162,11 +162,12 @@ def _all_retained_reachable(store):
     p = reader.pointer(store)
     md = reader.read_metadata(store, p[1])
     out = set()
+    import posixpath
     for s in md["snapshots"]:
         c = reader.snapshot_content(store, s)
         out.add(c["mlist"])
         out.update(c["manifests"])
-        out.update(c["files"])
+        out.update(posixpath.normpath(f_) for f_ in c["files"])      # the file a spelling like data//x, data/./x, data/s/../x NAMES
     return out, md
 
 
@@ -180,6 +181,8 @@ SCRIPTS = [
     ["append", "opentx", "age", "gc", "opentx", "age", "gc", "append", "gc"],
     # a live transaction holding a pre-built file in a partition sub-directory, hours old, across collections; then it commits
     ["append", "opentx-prebuilt", "age", "gc0", "gc1h", "append", "gc0"],
+    # pre-built files registered under non-canonical spellings of their paths, collections afterwards
+    ["append", "append-spelled", "append-spelled", "age", "gc1h", "append-spelled", "append-spelled", "age", "gc0", "append", "gc0"],
     # fresh garbage: the default-sized grace period leaves it alone, grace 0 removes it
     ["append", "append2", "delete", "expire+", "gc1h", "gc0", "append", "delete", "expire+", "gc0"],
 ]
@@ -246,6 +249,21 @@ def _history(ctx, rep, rng, location, make_store, chdir=None, s3env=None, script
                 tx.append_files(dfs_)
                 tx._verif_prebuilt = rels_
                 open_txs.append(tx)
+            elif op == "append-spelled" and s3env is None:
+                # a pre-built file registered under a NON-CANONICAL spelling of its path (the library resolves it; scans work)
+                import pyarrow as pa
+                import pyarrow.parquet as pq
+                from datashard.data_structures import DataFile, FileFormat
+                sch_ = t.file_manager.data_file_manager.create_arrow_schema(tablekit.schema())
+                spell = ["data//sp{}.parquet", "data/./sp{}.parquet", "/data/sub/../sp{}.parquet", "./data/sp{}.parquet"][i % 4].format(i)
+                import posixpath
+                full_ = os.path.join(store.root, posixpath.normpath(spell.lstrip("/")))
+                os.makedirs(os.path.join(store.root, "data", "sub"), exist_ok=True)
+                pq.write_table(pa.table({"id": [9000 + i], "name": ["spelled"]}, schema=sch_), full_)
+                with t.new_transaction() as tx:
+                    tx.append_files([DataFile(file_path=spell, file_format=FileFormat.PARQUET, partition_values={}, record_count=1,
+                                              file_size_in_bytes=os.path.getsize(full_))])
+                    tx.commit()
             elif op == "age":
                 if s3env is not None:
                     _age_all(None, 7200, s3env.fake, store.prefix + "/")
